@@ -288,6 +288,34 @@ func TestC14(t *testing.T) {
 			t.Errorf("payload depends on the pipeline's value of a variable the step sets to the empty string (BLANKED=%s)", v)
 		}
 	}
+	// a pipeline env much larger than the step env, with shadowed names among the variables:
+	// the payload must not depend on Go's map iteration order, nor contain a shadowed variable
+	{
+		big := func() map[string]string {
+			e := map[string]string{"SHADOW": "pipeline", "A": "pipeline", "BLANKED": "pipeline"}
+			for i := 0; i < 12; i++ {
+				e[fmt.Sprintf("V%02d", i)] = fmt.Sprint(i)
+			}
+			return e
+		}
+		sb, _ := base()
+		pBig := payloadOf(t, kp.signer, sb, big(), "url")
+		for i := 0; i < rounds*3; i++ {
+			s, _ := base()
+			cases++
+			p := payloadOf(t, kp.signer, s, big(), "url")
+			if p != pBig {
+				failures++
+				t.Errorf("payload differs between two identical calls with a large pipeline env (map iteration order)")
+				break
+			}
+			if strings.Contains(p, "env::SHADOW") || strings.Contains(p, "env::A\"") || strings.Contains(p, "env::BLANKED") {
+				failures++
+				t.Errorf("payload contains a pipeline variable the step shadows: %s", p)
+				break
+			}
+		}
+	}
 	for _, emptyForm := range []func(*pipeline.CommandStep){
 		func(s *pipeline.CommandStep) { s.Env = nil; s.Plugins = nil; s.Matrix = nil },
 		func(s *pipeline.CommandStep) {
@@ -428,8 +456,8 @@ func TestC06(t *testing.T) {
 							continue
 						}
 						steps := genSteps(depth, seed, 0, unkAt, lastPath)
-						env := map[string]string{"P": "v", "SHADOW": "pipeline", "BLANK": "pipeline"}
-						envBefore := map[string]string{"P": "v", "SHADOW": "pipeline", "BLANK": "pipeline"}
+						env := map[string]string{"P": "v", "SHADOW": "pipeline", "BLANK": "pipeline", "Q1": "1", "Q2": "2", "Q3": "3", "Q4": "4"}
+						envBefore := map[string]string{"P": "v", "SHADOW": "pipeline", "BLANK": "pipeline", "Q1": "1", "Q2": "2", "Q3": "3", "Q4": "4"}
 						before, _ := json.Marshal(steps)
 						err := signature.SignSteps(ctx, steps, kp.signer, "repo", signature.WithEnv(env))
 						cases++
@@ -456,7 +484,7 @@ func TestC06(t *testing.T) {
 								t.Errorf("%s depth %d seed %d: unsigned command step %q", kp.name, depth, seed, c.Command)
 								return
 							}
-							want := []string{"command", "env", "env::P", "matrix", "plugins", "repository_url"}
+							want := []string{"command", "env", "env::P", "env::Q1", "env::Q2", "env::Q3", "env::Q4", "matrix", "plugins", "repository_url"}
 							if !reflect.DeepEqual(c.Signature.SignedFields, want) {
 								failures++
 								t.Errorf("signed fields %v, want %v", c.Signature.SignedFields, want)
